@@ -1,7 +1,7 @@
 (** Property C11 — the theorems the check counts as obligations.  Nothing but
     statements closed by [exact] and [Print Assumptions]. *)
 From HS Require Import Base.Prelude Base.PyLib C11.Model C11.NodeProofs C11.Election C11.Refute C11.LogProofs C11.LogMatching C11.Progress
-  C11.Completeness C11.Steps C11.Progress2 Gen.RaftLogGen C11.GenTie.
+  C11.Completeness C11.Steps C11.Progress2 C11.Liveness Gen.RaftLogGen C11.GenTie.
 Local Open Scope Z_scope.
 
 (** Each node applies indices 1,2,3,... in order without gaps or repeats, for
@@ -211,6 +211,27 @@ Theorem c11_follower_learns_commit_partial : forall n f (p : nat),
   end.
 Proof. exact follower_learns_commit. Qed.
 Print Assumptions c11_follower_learns_commit_partial.
+
+(** LIVENESS on a fault-free network, cluster level, for every cluster size >= 2
+    and the canonical schedule (PARTIAL in the delivery order: messages are
+    delivered in the order they were sent): in an in-sync cluster (everybody in
+    the leader's term with the leader's log, nothing in flight — [insync]; a
+    three-node cluster right after its first election is such a state,
+    [insync_reachable]) the cycle "submit at the leader; heartbeat; deliver
+    everything; heartbeat; deliver everything" leaves the cluster in sync with
+    the command appended to every log and committed at every node ... *)
+Theorem c11_liveness_one_command_partial : forall w L T LG c, insync w L T LG ->
+  insync (net_run w (cycle L c (length (peers (nodes w L))))) L T (LG ++ [(T, c)]).
+Proof. exact one_command. Qed.
+Print Assumptions c11_liveness_one_command_partial.
+
+(** ... so every command of ANY list submitted to the established leader is
+    committed and applied, in submission order, by every node. *)
+Theorem c11_liveness_all_commands_applied_partial : forall cs w L T LG, insync w L T LG ->
+  let w' := net_run w (run_commands L (length (peers (nodes w L))) cs) in
+  forall i, In i (ids w') -> map snd (applied (nodes w' i)) = map snd LG ++ cs.
+Proof. exact all_commands_applied. Qed.
+Print Assumptions c11_liveness_all_commands_applied_partial.
 
 (* ------------------------------------------------------------------ *)
 (** The replicated log of the CODE: consensus/log.py as REGENERATED on every run
